@@ -3,7 +3,7 @@ import os
 from .. import guards, scalar
 from .. import buildmodel as bm
 
-EXPL = ('(R-POLY/tables) the set-up code of the interleaved w-NAF multiplications is executed with concrete control and symbolic group values: in G2::multiply_frobenius digit stream j is recoded from c[j] and table j is filled from (sign(x) psi)^j (a) = [|x|^j] a on every path (an unfilled table only where its stream is empty); in G1::multiply_endomorphism both streams come from (c0, c1) and the table from a; WnafTable::fill_table gives table[k] = (2k+1) base for every instantiation. (R-WORDALG/c++) decompose_lambda is executed at word level: on every path (+-c0) + lambda (+-c1) - k is a multiple of r identically in k AND in the rounded quotient (the lattice vectors are in the kernel of (a,b) -> a + lambda b, so only the exactness of the recombination matters: products, the add-back of round(b1), the ordered subtractions and the signs), with floordiv_by_fr_p_value replaced by an arbitrary value after checking that it writes only its result; PowersOfX::decompose recombines to y modulo r on every path (64-bit-word configurations). (R-WORDALG/c++, recoding step) one iteration of WnafScalar::from_bigint from an arbitrary state satisfies c_old == u + 2 c_new exactly (byte-level reads and writes, the subtract / add-back with its lost top bit re-inserted after the shift, the comparison deciding the wrap), stores u at wnaf[i] with |u| <= 2^w - 1 and advances i by one; with c == scalar before the loop and c == 0 at its exit the digits recombine to the scalar for every scalar. Decided: '
+EXPL = ('(R-POLY/tables) the set-up code of the interleaved w-NAF multiplications is executed with concrete control and symbolic group values: in G2::multiply_frobenius digit stream j is recoded from c[j] and table j is filled from (sign(x) psi)^j (a) = [|x|^j] a on every path (an unfilled table only where its stream is empty); in G1::multiply_endomorphism both streams come from (c0, c1) and the table from a; WnafTable::fill_table gives table[k] = (2k+1) base for every instantiation. (R-WORDALG/c++) decompose_lambda is executed at word level: on every path (+-c0) + lambda (+-c1) - k is a multiple of r identically in k AND in the rounded quotient (the lattice vectors are in the kernel of (a,b) -> a + lambda b, so only the exactness of the recombination matters: products, the add-back of round(b1), the ordered subtractions and the signs), with floordiv_by_fr_p_value replaced by an arbitrary value after checking that it writes only its result; PowersOfX::decompose recombines to y modulo r on every path (64-bit-word configurations). (R-WORDALG/c++, recoding step) one iteration of WnafScalar::from_bigint from an arbitrary state satisfies c_old == u + 2 c_new exactly (byte-level reads and writes, the subtract / add-back with its lost top bit re-inserted after the shift, the comparison deciding the wrap), stores u at wnaf[i] with |u| <= 2^w - 1 and advances i by one; with c == scalar before the loop and c == 0 at its exit the digits recombine to the scalar for every scalar. (R-POLY/doubleadd) Projective::multiply_doubleadd_restrict is interpreted in the exponent domain (group element = [E] base, E an integer-linear form over the symbolic bits of the scalar; copy(zero) -> 0, multiply2 -> *2, add -> +) for highest_bit in {0, bits/2, bits-1}: the result is sum_i 2^i bit_i(k) base over exactly the bits 0..highest_bit, identically in the bits. Decided: '
         '(R-DISPATCH) on the resolved call graph of every instantiation, no function that handles a point not yet known '
         'to be in the order-r subgroup (subgroup test, cofactor clearing in sampling and identity derivation, hash-to-curve) '
         'can reach a multiplication that is only valid on the subgroup (GLV endomorphism, Frobenius base-|x|, their '
@@ -38,3 +38,13 @@ def run(ctx):
         ctx.floor('R-POLY/tables obligations[%s]' % cfg, nt, 4)
         nd = tables.rule_digit_loops(ctx, cfg, prog)
         ctx.floor('R-POLY/digits accumulator updates[%s]' % cfg, nd, 20)
+        from .. import daexp
+        nda = daexp.rule_doubleadd(ctx, cfg, prog)
+        if nda:
+            ctx.floor('R-POLY/doubleadd obligations[%s]' % cfg, nda, 3)
+        else:
+            # a member template: present in the program only while something calls it (today: the subgroup test and the sampling
+            # paths); with no instantiation there is no double-and-add code to decide in this configuration
+            ctx.require(not any('multiply_doubleadd' in (f.get('qn') or '') and 'body' in f for f in prog.functions.values()),
+                        'multiply_doubleadd* is instantiated but R-POLY/doubleadd found no routine to interpret')
+            ctx.count('R-POLY/doubleadd: routine not instantiated[%s]' % cfg)
